@@ -364,11 +364,17 @@ def parse_fn(src, name, occ=0, key=None):
     p.eat("fn"); p.next(); p.eat("(")
     params = []
     while not p.at(")"):
+        self_mut_ref = False
         if p.at("&") and p.peek(1)[1] == "self":
             p.next()
+        elif p.at("&") and p.peek(1)[1] == "mut" and p.peek(2)[1] == "self":
+            p.next(); self_mut_ref = True
         p.opt("mut")
         if p.at("self"):
-            p.next(); params.append(("self", "Self")); p.opt(","); continue
+            p.next(); params.append(("self", "Self")); p.opt(",")
+            if self_mut_ref:
+                MUT_PARAMS.setdefault(key or name, []).append("self")
+            continue
         pn = p.next()[1]; p.eat(":")
         is_mut_ref = p.at("&") and p.peek(1)[1] == "mut"
         params.append((pn, p.ty()))
@@ -448,7 +454,7 @@ def macro_expand(src, name, arm, inv, extra):
     first arm's flat pattern) plus `extra`; repetition markers `$( … )*` are dropped (one instance)"""
     src = re.sub(r"//[^\n]*", "", src)
     arms, span = macro_arms(src, name)
-    b = macro_bind(arms[0][0], macro_invocation(src, name, inv, span))
+    b = macro_bind(arms[0][0], macro_invocation(src, name, inv, span)) if inv is not None else {}
     b.update(extra or {})
     body = arms[arm][1]
     body = body.replace("$(", "").replace(")*", "")
@@ -645,6 +651,8 @@ class Emit:
                 return ("Option", self.type_of(e[2][0]))
             if n in ("Ok", "Err"):
                 return hint
+            if len(e[1]) == 2 and (e[1][0], n) in TRAIT_CALLS:
+                return "Decimal"
             if n == "try_from" and len(e[1]) == 2:
                 target = e[1][0] if e[1][0] != "Self" else self.self_ty
                 st = self.type_of(e[2][0])
@@ -1011,6 +1019,21 @@ class Emit:
     def call(self, e, hint):
         _, path, args = e
         n = path[-1]
+        if len(path) == 2 and (path[0], n) in TRAIT_CALLS and len(args) >= 2:
+            kinds = tuple("d" if self.type_of(a) == "Decimal" else "i" for a in args[:2])
+            target = TRAIT_CALLS[(path[0], n)].get(kinds)
+            if target is None:
+                raise Unsupported(f"trait call {path} on {kinds}")
+            ls, xs = [], []
+            for a in args:
+                l, x = self.ex(a, None)
+                ls += l; xs.append(f"({x})")
+            v = self.fresh()
+            tm = ""
+            if TM_NEEDED.get(target):
+                self.needs_tm = True
+                tm = "tm "
+            return ls + [f"let {v} ← K.{target} prof {tm}" + " ".join(xs)], v
         if len(path) == 2 and path[0] in INT_TYPES and re.match(r"(checked|wrapping|saturating)_", n) and len(args) == 2:
             return self.method(("method", ("cast", args[0], path[0]) if False else args[0], n, args[1:]), hint)
         if path == ["RoundingMode", "default"]:
@@ -1484,7 +1507,7 @@ class Emit:
 
 # ----------------------------------------------------------------------------- driver
 GROUP_IMPORTS = {"KPow": ["Fpdec.Gen.Consts"], "KDivRounded": ["Fpdec.Gen.KRound", "Fpdec.Gen.KPow", "Fpdec.Model.Core"],
-                 "KDecDiv": ["Fpdec.Gen.KDivRounded"], "KDecMul": ["Fpdec.Gen.KDivRounded", "Fpdec.Model.Decimal"], "KNorm": [], "KIntConv": ["Fpdec.Gen.KPow", "Fpdec.Model.Decimal"], "KCmp": ["Fpdec.Gen.KPow", "Fpdec.Model.Decimal"], "KAddSub": ["Fpdec.Gen.KPow", "Fpdec.Model.Decimal"], "KDecUnops": ["Fpdec.Gen.KUnops", "Fpdec.Gen.KPow", "Fpdec.Model.Decimal"], "KDecOps": ["Fpdec.Gen.KDecDiv", "Fpdec.Gen.KDecMul", "Fpdec.Gen.KNorm", "Fpdec.Gen.Consts", "Fpdec.Model.Decimal"],
+                 "KDecDiv": ["Fpdec.Gen.KDivRounded"], "KDecMul": ["Fpdec.Gen.KDivRounded", "Fpdec.Model.Decimal"], "KNorm": [], "KForward": ["Fpdec.Gen.KAddSub", "Fpdec.Gen.KDecOps"], "KIntConv": ["Fpdec.Gen.KPow", "Fpdec.Model.Decimal"], "KCmp": ["Fpdec.Gen.KPow", "Fpdec.Model.Decimal"], "KAddSub": ["Fpdec.Gen.KPow", "Fpdec.Model.Decimal"], "KDecUnops": ["Fpdec.Gen.KUnops", "Fpdec.Gen.KPow", "Fpdec.Model.Decimal"], "KDecOps": ["Fpdec.Gen.KDecDiv", "Fpdec.Gen.KDecMul", "Fpdec.Gen.KNorm", "Fpdec.Gen.Consts", "Fpdec.Model.Decimal"],
                  "KDecRound": ["Fpdec.Gen.KDivRounded", "Fpdec.Model.Decimal"],
                  "KFloat": ["Fpdec.Gen.KNorm", "Fpdec.Gen.Consts", "Fpdec.Model.Core", "Fpdec.Model.Decimal"], "KRem": ["Fpdec.Gen.KPow"], "KDecRem": ["Fpdec.Gen.KRem", "Fpdec.Model.Decimal"],
                  "KWideDiv": ["Fpdec.Gen.KWide", "Fpdec.Gen.KPow", "Fpdec.Gen.Consts", "Fpdec.Model.Core"]}
@@ -1568,6 +1591,32 @@ KERNELS = [
     ("KSwar", "fpdec-core/src/parser.rs", "chunk_to_u64", None),
     ("KUnops", "src/unops.rs", "div_floor", "i128"),
     ("KUnops", "src/unops.rs", "div_ceil", "i128"),
+    ("KForward", "src/binops/mod.rs", "$method", "Decimal",
+     {"as": "ref_add_val", "macro": ("forward_ref_binop", 0, None, {"$imp": "Add", "$method": "add"}), "occ": 0, "ret": "Decimal"}),
+    ("KForward", "src/binops/mod.rs", "$method", "Decimal",
+     {"as": "val_add_ref", "macro": ("forward_ref_binop", 0, None, {"$imp": "Add", "$method": "add"}), "occ": 1, "ret": "Decimal"}),
+    ("KForward", "src/binops/mod.rs", "$method", "Decimal",
+     {"as": "ref_add_ref", "macro": ("forward_ref_binop", 0, None, {"$imp": "Add", "$method": "add"}), "occ": 2, "ret": "Decimal"}),
+    ("KForward", "src/binops/mod.rs", "$method", "Decimal",
+     {"as": "ref_mulr_val", "macro": ("forward_ref_binop_rounded", 0, None, {"$imp": "MulRounded", "$method": "mul_rounded"}), "occ": 0}),
+    ("KForward", "src/binops/mod.rs", "$method", "Decimal",
+     {"as": "val_mulr_ref", "macro": ("forward_ref_binop_rounded", 0, None, {"$imp": "MulRounded", "$method": "mul_rounded"}), "occ": 1}),
+    ("KForward", "src/binops/mod.rs", "$method", "Decimal",
+     {"as": "ref_mulr_ref", "macro": ("forward_ref_binop_rounded", 0, None, {"$imp": "MulRounded", "$method": "mul_rounded"}), "occ": 2}),
+    ("KForward", "src/binops/mod.rs", "$method", "Decimal",
+     {"as": "ref_add_int", "macro": ("forward_ref_binop_decimal_int", 1, None, {"$imp": "Add", "$method": "add", "$t": "i64"}), "occ": 0, "ret": "Decimal"}),
+    ("KForward", "src/binops/mod.rs", "$method", "Decimal",
+     {"as": "val_add_refint", "macro": ("forward_ref_binop_decimal_int", 1, None, {"$imp": "Add", "$method": "add", "$t": "i64"}), "occ": 1, "ret": "Decimal"}),
+    ("KForward", "src/binops/mod.rs", "$method", "Decimal",
+     {"as": "ref_add_refint", "macro": ("forward_ref_binop_decimal_int", 1, None, {"$imp": "Add", "$method": "add", "$t": "i64"}), "occ": 2, "ret": "Decimal"}),
+    ("KForward", "src/binops/mod.rs", "$method", "i64",
+     {"as": "refint_add_val", "macro": ("forward_ref_binop_decimal_int", 1, None, {"$imp": "Add", "$method": "add", "$t": "i64"}), "occ": 3, "ret": "Decimal"}),
+    ("KForward", "src/binops/mod.rs", "$method", "i64",
+     {"as": "int_add_ref", "macro": ("forward_ref_binop_decimal_int", 1, None, {"$imp": "Add", "$method": "add", "$t": "i64"}), "occ": 4, "ret": "Decimal"}),
+    ("KForward", "src/binops/mod.rs", "$method", "i64",
+     {"as": "refint_add_ref", "macro": ("forward_ref_binop_decimal_int", 1, None, {"$imp": "Add", "$method": "add", "$t": "i64"}), "occ": 5, "ret": "Decimal"}),
+    ("KForward", "src/binops/mod.rs", "$method", "Decimal",
+     {"as": "add_assign", "macro": ("forward_op_assign", 0, None, {"$imp": "AddAssign", "$method": "add_assign", "$base_imp": "Add", "$base_method": "add", "T": "Decimal"}), "occ": 0}),
 ]
 
 # functions that generated code may call but that are modelled by hand: params, return type, Lean head (with its fixed arguments)
@@ -1591,6 +1640,16 @@ ARRAYS = {"POWERS_OF_10": ("i128", "Gen.POWERS_OF_10"), "IDX_MAP": ("u8", "Gen.M
 TM_NEEDED = {}
 
 
+# `Trait::method(a, b)` on Decimal / integer operands: which translated kernel implements it
+TRAIT_CALLS = {
+    ("Add", "add"): {("d", "d"): "decimal_add", ("d", "i"): "decimal_add_int", ("i", "d"): "int_add_decimal"},
+    ("Sub", "sub"): {("d", "d"): "decimal_sub", ("d", "i"): "decimal_sub_int", ("i", "d"): "int_sub_decimal"},
+    ("Mul", "mul"): {("d", "d"): "decimal_mul"},
+    ("Div", "div"): {("d", "d"): "decimal_div"},
+    ("Rem", "rem"): {("d", "d"): "decimal_rem"},
+    ("MulRounded", "mul_rounded"): {("d", "d"): "decimal_mul_rounded"},
+    ("DivRounded", "div_rounded"): {("d", "d"): "decimal_div_rounded"},
+}
 ERR_TYPE = ["DecimalError"]      # what `Self::Error` stands for in the function being parsed
 
 
@@ -1625,10 +1684,13 @@ def translate(repo):
             if "macro" in opts:
                 mname, marm, minv, mextra = opts["macro"]
                 text = macro_expand(text, mname, marm, minv, mextra)
-                fname = [v for k_, v in macro_bind(macro_arms(re.sub(r"//[^\n]*", "", srcs[f]), mname)[0][0][0],
-                                                   macro_invocation(re.sub(r"//[^\n]*", "", srcs[f]), mname, minv,
-                                                                    macro_arms(re.sub(r"//[^\n]*", "", srcs[f]), mname)[1])).items()
-                         if k_ == fname] [0] if fname.startswith("$") else fname
+                if fname.startswith("$"):
+                    clean = re.sub(r"//[^\n]*", "", srcs[f])
+                    binds = dict(mextra or {})
+                    if minv is not None:
+                        arms_, span_ = macro_arms(clean, mname)
+                        binds = {**macro_bind(arms_[0][0], macro_invocation(clean, mname, minv, span_)), **binds}
+                    fname = binds[fname]
             params, ret, body = parse_fn(text, fname, opts.get("occ", 0), name)
             ERR_TYPE[0] = opts.get("err", "DecimalError")
             params = [(n, sub(t, selfty)) for n, t in params]
